@@ -184,6 +184,14 @@ bool_switch("unused_fix_primary",
               r"func \(s \*JavaRefactorListener\) EnterPrimary\(")],
             "a bare identifier (primary) is recorded as a referenced name")
 
+# ---- method rename (C05)
+str_const("rename_conf_sep", "pkg/application/refactor/rename/support/related_parser.go",
+          r'strings\.Split\(str, "([^"]+)"\)', "separator between the old and the new qualified name on a line of the rename file")
+str_const("rename_line_sep", "pkg/application/refactor/rename/rename_method.go",
+          r'strings\.Split\(string\(input\), "((?:[^"\\]|\\.)+)"\)', "line separator of updateSelfRefs, as written in the Go source (escape not decoded)")
+str_const("rename_name_sep", "pkg/application/refactor/rename/support/package_info_helper.go",
+          r'strings\.Split\(name, "([^"]+)"\)', "separator of package, class and method in a qualified method name")
+
 import json as _json
 if not errors:
     _m = re.search(r"historyArgs := \[\]string\{(.*?)\}\s*$", read("cmd/git.go"), re.M | re.S)
